@@ -98,19 +98,19 @@ LATER = {
     "C01": "pending pings with a stalled transmit path; NDP search-list labels laid against the end of the option; group-addressed short vendor frames",
     "C02": "every EtherType value (65536) times five payload shapes incl. double tagging; IPv4-mapped / site-local / unique-local IPv6 addresses",
     "C03": "kept IPv4 views; 60..253 DHCP options; Ether.AppendPayload with spare-capacity copies and padding; mixed-case DNS names; NDP messages kept across later marshals",
-    "C04": "full unread notification channel; many-stations (17..250 hosts through both purges); LastSeen must be refreshed by every frame; MAC twins (one-byte differences at every position, swapped bytes, a VRRP MAC)",
+    "C04": "full unread notification channel; many-stations (17..250 hosts through both purges); LastSeen must be refreshed by every frame; MAC twins (one-byte differences at every position, swapped bytes, a VRRP MAC); IPv6 sources that are unicast but neither link-local nor global (loopback, mapped)",
     "C05": "full unread notification channel; MAC twins and special MACs",
     "C06": "names with a trailing dot / case twins; DHCP frames from an off-LAN source; LastSeen refresh",
     "C07": "destination of DHCP replies; RFC 2131 fields of forged DECLINE / RELEASE (the histories call StartHunt on capture); exact NBNS names",
-    "C08": "long client identifiers; RDLENGTH corruption; RA.Options must not invent prefixes; the environment advertises as a router (RADVS) and gets RAs claiming its own address; aged deliveries (mDNS cache expired through a hook)",
-    "C09": "DHCP dialogues (incl. a foreign server's OFFER) with a lease file; full-channel drill; a crowd of 70..150 tracked stations; lingering rounds (loops go through timer cycles)",
+    "C08": "long client identifiers; RDLENGTH corruption; RA.Options must not invent prefixes; the environment advertises as a router (RADVS) and gets RAs claiming its own address; aged deliveries (mDNS cache expired through a hook); deliveries in slices without spare capacity",
+    "C09": "DHCP dialogues (incl. a foreign server's OFFER, client identifiers, init-reboot for a foreign address) with a lease file; full-channel drill; a crowd of 70..150 tracked stations; lingering rounds (loops go through timer cycles)",
     "C10": "structured router advertisements from two routers; shared client identifiers; overstated UDP lengths",
     "C11": "five networks (/28, /24, /25, /23, and the default configuration whose netfilter subnet is the whole LAN); identity k6; request class twin; session purges; recycling sub-check; vendor class and requested lease time options; a virtual clock in the ledger with age steps (hook VerifAgeLeases)",
     "C12": "the additions of C11; reconfigured prefix lengths",
     "C13": "forged packets must keep coming while hunted (first within 2 s, then every 9 s at most); confirm steps; starts under another address; a bystander claiming the router's address",
     "C14": "RDNSS with 16+ servers; twin advertisements; IPv4 link-local and site-local targets",
     "C15": "Checksum must not write its input; send functions at three log levels, to group / broadcast destinations, router advertisements of 1..16 prefixes",
-    "C16": "receive ring of 1..3 buffers; echo messages after and during pings of the process",
+    "C16": "receive ring of 1..3 buffers; echo messages after and during pings of the process; captured senders",
     "C17": "second responses about the same and about another name; an earlier mDNS message from the same station; IPv4-mapped AAAA; labels that are words of the naming schemes",
     "C18": "decline steps; default and /23 configurations; the probing identity shares the station's MAC and asks before the renewals; many-leases (110..240 clients)",
     "C19": "six pings pending at once across the identifier wrap-around; replies parsed from inside the connection's WriteTo; reply header variants; other ICMP types",
